@@ -29,13 +29,14 @@ def _replay(case):
             "features": sorted(case["features"]), "src_model_b64": base64.b64encode(case["src"]).decode()}
 
 
-def function_stage(ck, n, n_malformed):
+def function_stage(ck, n, n_malformed, only=None):
+    """`only=(malformed, index)`: just that case (replay of a violation of this stream)"""
     import wfunc
 
     reqs, owners = [], []
     cases = []
-    for mal, count in ((False, n), (True, n_malformed)):
-        for i in range(count):
+    for mal, idxs in ((False, range(n)), (True, range(n_malformed))) if only is None else ((bool(only[0]), [int(only[1])]),):
+        for i in idxs:
             pert = (i % 4 != 0) and not mal
             c = wfunc.run_case(ck.seed, i, malformed=mal, do_perturb=pert)
             c["perturbed"] = pert
